@@ -496,4 +496,21 @@ theorem stats_eq_finalV (inp : Inputs ℝ) (kCN : Nat) :
       simp [Result.tNucleation, Result.tSolidification, finalV, vAt, hi]
 
 
+/-- for physically valid constants (`Phys.Valid`: positive masses, heats, 0 < w_s < 1, …) the initial
+ice of a supercooled vial is positive in both formulations: `JumpPos` is not an extra assumption
+for the configurations the package can produce. -/
+theorem jumpPos_of_valid (ph : Phys) (hv : ph.Valid) (p : Params ℝ) (hc : p.c = ph.consts) : JumpPos p := by
+  intro T hT
+  rw [hc] at hT ⊢
+  have hT' : T < ph.TeqL := hT
+  cases hii : p.initIce with
+  | direct => exact (sigmaDirect_spec ph hv T hT').1.2.1
+  | indirect =>
+    have hs : sigmaJump .indirect ph.consts T = (ph.TeqL - T) / (ph.D + ph.lam / ph.cpl * (1 - ph.w_s)) :=
+      sigmaIndirect_spec ph hv T
+    rw [hs]
+    have hgam : ph.lam / ph.cpl * (1 - ph.w_s) = ph.gamma := by unfold Phys.gamma; ring
+    rw [hgam]
+    exact div_pos (by linarith) (by linarith [hv.D_pos, hv.gamma_pos])
+
 end Snow.FlakeStatsLemmas
